@@ -40,7 +40,7 @@ def _parse_out(text):
         elif cur is None:
             if k == "permc_get":
                 pre["permc_get"] = [int(x) for x in t[2:]]
-        elif k in ("info", "redzone", "inside", "usepr_after"):
+        elif k in ("info", "redzone", "inside", "usepr_after", "stale_touched", "stale_inside"):
             cur[k] = int(t[1])
         elif k == "xerbla":
             cur["xerbla"] = (int(t[1]), t[2], int(t[3]))
